@@ -15,7 +15,7 @@ PROP = "C03"
 SHARDS = {"quick": 8, "thorough": 16}
 TIME_CAP = {"quick": 70, "thorough": 900}
 RECURSION_LIMIT = 3000
-REQUIRED = ["returned", "rejected", "programs", "hostile_calls", "coerce_calls", "no_copy_calls", "purity_checks", "class_fp_checks", "step_counted_calls", "deep_calls"]
+REQUIRED = ["returned", "rejected", "programs", "hostile_calls", "coerce_calls", "no_copy_calls", "purity_checks", "class_fp_checks", "step_counted_calls", "deep_calls", "digraph_calls"]
 RULE = ("C01 program space x {type-relevant atoms, hostile non-JSON objects (NaN/inf, 10**400, str/int/float/list/dict subclasses, tuples, bytes, sets, "
         "non-string / mixed / unhashable keys and values, lone surrogates) substituted at every position of model-valid data, random non-JSON trees, "
         "nesting up to depth 2000 on recursive types} x coerce x additional_properties x fall_back_on_default x no_copy. "
@@ -249,11 +249,60 @@ def check_program(env, prog, steps, hostile, label, ndata):
     env.count("programs")
 
 
+def check_digraph(env, j):
+    """mutually recursive classes with overlapping cycles (random digraph), first uses in random order, shallow data:
+    compiling / analysing the recursion must never end in RecursionError"""
+    import sys
+    import types
+    from apischema import deserialize, serialize
+    from apischema.json_schema import deserialization_schema
+
+    rng = env.rng
+    n = rng.choice([2, 3, 3, 4, 5, 6])
+    tag = f"{env.shard}_{j}"
+    names = [f"K{tag}_{i}" for i in range(n)]
+    edges = {a: [b for b in names if rng.random() < 0.4] for a in names}
+    src = "from dataclasses import dataclass, field\nfrom typing import List, Optional, Dict\n"
+    for a in names:
+        src += f"@dataclass\nclass {a}:\n" + ("    x: int = 0\n" if not edges[a] else "")
+        for k, b in enumerate(edges[a]):
+            w = rng.choice(["Optional['{}']", "Optional[List['{}']]", "Optional[Dict[str, '{}']]", "List['{}']"]).format(b)
+            src += f"    f{k}: {w} = " + ("None\n" if w.startswith("Optional") else "field(default_factory=list)\n")
+    mod = types.ModuleType(f"vfdigraph_{tag}")
+    sys.modules[mod.__name__] = mod
+    harness.reset_all()
+    try:
+        exec(compile(src, f"<{mod.__name__}>", "exec"), mod.__dict__)
+        order = names[:]
+        rng.shuffle(order)
+        for a in order:
+            cls = getattr(mod, a)
+            datum = {}
+            if edges[a]:
+                datum = {"f0": None}
+            for fn, args in ((deserialize, (cls, datum)), (deserialization_schema, (cls,))):
+                o = harness.call(fn, *args)
+                env.count("digraph_calls")
+                env.case("digraph", src, a, fn.__name__)
+                if o.kind == "exc":
+                    env.violation({"kind": "exception", "exc": o.exc, "family": "recursive-digraph", "op": fn.__name__}, {"program": src, "order": order, "class": a, "observed": o.brief()})
+                    return
+                if fn is deserialize and o.kind == "ok":
+                    s = harness.call(serialize, cls, o.value)
+                    if s.kind == "exc":
+                        env.violation({"kind": "exception", "exc": s.exc, "family": "recursive-digraph", "op": "serialize"}, {"program": src, "order": order, "class": a, "observed": s.brief()})
+                        return
+    finally:
+        sys.modules.pop(mod.__name__, None)
+
+
 def run(env):
     harness.tag_errors(False)
     rng = env.rng
     steps = Steps()
     hostile = gen_data.hostile_atoms()
+    for j in range(env.n(400, 8000)):
+        check_digraph(env, j)
     n = env.n(2600, 60000)
     small = [b for i, (_, b) in enumerate(gen_types.enumerate_small(depth2=False))]
     for j in range(n):
